@@ -6,7 +6,7 @@ open OllamaVerif.Lockset
 def classNames : List String := ["Scheduler.expiredCh", "Scheduler.finishedReqCh", "Scheduler.getCpuFn", "Scheduler.getGpuFn", "Scheduler.loadFn", "Scheduler.loaded", "Scheduler.newServerFn", "Scheduler.pendingReqCh", "Scheduler.reschedDelay", "Scheduler.unloadedCh", "Server.addr", "Server.sched", "blobDownload.CancelFunc", "blobDownload.Completed", "blobDownload.Digest", "blobDownload.Name", "blobDownload.Parts", "blobDownload.Total", "blobDownload.done", "blobDownload.err", "blobDownload.references", "blobUpload.CancelFunc", "blobUpload.Completed", "blobUpload.Layer", "blobUpload.Parts", "blobUpload.Total", "blobUpload.done", "blobUpload.err", "blobUpload.file", "blobUpload.nextURL", "blobUpload.references", "global.blobDownloadManager", "global.blobUploadManager", "global.intermediateBlobs", "runnerRef.Options", "runnerRef.estimatedTotal", "runnerRef.estimatedVRAM", "runnerRef.expireTimer", "runnerRef.expiresAt", "runnerRef.gpus", "runnerRef.llama", "runnerRef.loading", "runnerRef.model", "runnerRef.modelPath", "runnerRef.numParallel", "runnerRef.refCount", "runnerRef.sessionDuration"]
 def lockNames : List String := ["Scheduler.loadedMu", "runnerRef.refMu"]
 def threadNames : List String := ["Scheduler.Run$1", "Scheduler.Run$2", "Scheduler.load$1", "Scheduler.load$1$1", "Scheduler.processCompleted$1", "Scheduler.processCompleted$2", "Scheduler.processPending$1", "Serve$2", "Server.CreateHandler$1", "Server.PullHandler$1", "Server.PushHandler$1", "api", "blobDownload.downloadChunk$1", "blobDownload.downloadChunk$2", "blobDownload.run$2", "blobUpload.Run$1", "go:downloadBlob:download.Run", "go:uploadBlob:upload.Run", "main", "runnerRef.waitForVRAMRecovery$1"]
-def siteNames : List String := ["InitScheduler:70", "Scheduler.processPending:295", "Scheduler.processCompleted:342", "Scheduler.expireRunner:844", "Scheduler.processCompleted$1:353", "Scheduler.processCompleted$2:376", "Scheduler.load$1:480", "InitScheduler:69", "Scheduler.processPending:153", "Scheduler.processCompleted:325", "Scheduler.load$1$1:488", "InitScheduler:75", "Scheduler.processPending:167", "InitScheduler:74", "Scheduler.processPending:169", "InitScheduler:78", "Scheduler.processPending:217", "Server.PsHandler:1424", "InitScheduler:72", "Scheduler.processPending:145", "Scheduler.processCompleted:327", "Scheduler.processCompleted:391", "Scheduler.load:469", "Scheduler.load:470", "Scheduler.updateFreeSpace:501", "Scheduler.filterGPUsWithoutLoadingModels:541", "Scheduler.findRunnerToUnload:791", "Scheduler.findRunnerToUnload:792", "Scheduler.unloadAllRunners:823", "Scheduler.expireRunner:834", "InitScheduler:73", "Scheduler.load:441", "InitScheduler:68", "Scheduler.GetRunner:98", "Scheduler.processPending:123", "Scheduler.processPending$1:273", "InitScheduler:76", "Scheduler.processPending$1:272", "InitScheduler:71", "Scheduler.processPending:306", "Scheduler.processCompleted:399", "Server.GenerateRoutes:1197", "Serve:1299", "Server.scheduleRunner:109", "Server.GenerateHandler:162", "Serve:1320", "Serve:1346", "Server.PsHandler:1423", "Server.ChatHandler:1489", "blobDownload.run:217", "blobDownload.release:433", "blobDownloadPart.Write:120", "blobDownload.Prepare:142", "blobDownload.Wait:451", "blobDownload.downloadChunk$1:347", "blobDownload.Prepare:178", "blobDownload.run:216", "blobDownload.Wait:448", "downloadBlob:494", "blobDownload.run$2:296", "blobDownload.downloadChunk$2:375", "blobDownloadPart.Name:106", "blobDownload.Prepare:128", "blobDownload.run:219", "blobDownload.run:323", "blobDownload.Prepare:143", "blobDownload.run:276", "blobDownload.newPart:392", "blobDownload.newPart:397", "blobDownload.Prepare:141", "blobDownload.Prepare:155", "blobDownload.run:226", "blobDownload.Wait:450", "blobDownload.Prepare:133", "blobDownload.Run:185", "blobDownload.Wait:444", "blobDownload.Run:186", "blobDownload.Wait:445", "blobDownload.acquire:428", "blobDownload.release:432", "blobUpload.Run:129", "blobUpload.release:313", "blobUpload.Prepare:87", "blobUpload.Wait:333", "progressWriter.Write:358", "progressWriter.Rollback:363", "blobUpload.Prepare:54", "blobUpload.Run:128", "blobUpload.Run:189", "blobUpload.uploadPart:269", "blobUpload.Wait:330", "uploadBlob:388", "blobUpload.Run$1:162", "blobUpload.Prepare:107", "blobUpload.Run:146", "blobUpload.Prepare:82", "blobUpload.Wait:332", "blobUpload.Prepare:88", "blobUpload.Run:213", "blobUpload.Wait:336", "blobUpload.Run:133", "blobUpload.Run:176", "blobUpload.Wait:337", "blobUpload.Run:137", "blobUpload.Run:142", "blobUpload.uploadPart:226", "blobUpload.Prepare:120", "blobUpload.Prepare:121", "blobUpload.Run:150", "blobUpload.uploadPart:252", "blobUpload.acquire:308", "blobUpload.release:312", "Server.CreateBlobHandler:1029", "Server.CreateBlobHandler:1038", "Scheduler.load:457", "runnerRef.unload:591", "runnerRef.needsReload:605", "runnerRef.needsReload:610", "Server.PsHandler:1437", "Scheduler.load:461", "Server.PsHandler:1438", "Scheduler.load:460", "runnerRef.waitForVRAMRecovery$1:679", "Scheduler.processPending:289", "Scheduler.processPending:290", "Scheduler.processPending:291", "Scheduler.processCompleted:338", "Scheduler.processCompleted:339", "Scheduler.processCompleted:340", "Scheduler.processCompleted:345", "LlmRequest.useLoadedRunner:417", "LlmRequest.useLoadedRunner:418", "LlmRequest.useLoadedRunner:419", "runnerRef.unload:582", "runnerRef.unload:583", "runnerRef.unload:584", "Scheduler.expireRunner:838", "Scheduler.expireRunner:839", "Scheduler.expireRunner:840", "Scheduler.processCompleted$1:349", "Scheduler.processCompleted$1:350", "Scheduler.processCompleted$1:351", "Server.PsHandler:1441", "Scheduler.processCompleted:355", "Scheduler.processCompleted:359", "Scheduler.expireRunner:837", "Scheduler.load:459", "Scheduler.filterGPUsWithoutLoadingModels:543", "runnerRef.unload:592", "runnerRef.waitForVRAMRecovery:645", "Server.scheduleRunner:117", "LlmRequest.useLoadedRunner:411", "Scheduler.load:456", "Scheduler.updateFreeSpace:503", "Scheduler.updateFreeSpace:505", "runnerRef.unload:586", "runnerRef.unload:587", "runnerRef.unload:590", "runnerRef.needsReload:625", "Scheduler.unloadAllRunners:824", "Scheduler.unloadAllRunners:826", "Scheduler.load:462", "Scheduler.filterGPUsWithoutLoadingModels:542", "runnerRef.needsReload:601", "Scheduler.load$1:484", "Server.PsHandler:1425", "Scheduler.load:454", "runnerRef.unload:589", "runnerRef.needsReload:622", "Scheduler.processPending:288", "Scheduler.processPending:301", "Scheduler.processCompleted:337", "Scheduler.processCompleted:357", "Scheduler.processCompleted:365", "Scheduler.processCompleted:371", "Scheduler.load:455", "ByDurationAndName.Less:701", "Scheduler.processCompleted$1:346", "Scheduler.load$1:479", "runnerRef.waitForVRAMRecovery$1:667", "Scheduler.load:465", "runnerRef.needsReload:618", "Scheduler.processCompleted:334", "Scheduler.processCompleted:335", "Scheduler.processCompleted:370", "LlmRequest.useLoadedRunner:416", "Scheduler.load:463", "Scheduler.findRunnerToUnload:808", "Scheduler.expireRunner:843", "Scheduler.load$1:477", "Server.PsHandler:1448", "Scheduler.processPending:293", "Scheduler.processCompleted:336", "LlmRequest.useLoadedRunner:422", "Scheduler.load:458", "ByDurationAndName.Less:695", "Scheduler.expireRunner:842"]
+def siteNames : List String := ["InitScheduler:70", "Scheduler.processPending:295", "Scheduler.processCompleted:342", "Scheduler.expireRunner:844", "Scheduler.processCompleted$1:353", "Scheduler.processCompleted$2:376", "Scheduler.load$1:480", "InitScheduler:69", "Scheduler.processPending:153", "Scheduler.processCompleted:325", "Scheduler.load$1$1:488", "InitScheduler:75", "Scheduler.processPending:167", "InitScheduler:74", "Scheduler.processPending:169", "InitScheduler:78", "Scheduler.processPending:217", "Server.PsHandler:1433", "InitScheduler:72", "Scheduler.processPending:145", "Scheduler.processCompleted:327", "Scheduler.processCompleted:391", "Scheduler.load:469", "Scheduler.load:470", "Scheduler.updateFreeSpace:501", "Scheduler.filterGPUsWithoutLoadingModels:541", "Scheduler.findRunnerToUnload:791", "Scheduler.findRunnerToUnload:792", "Scheduler.unloadAllRunners:823", "Scheduler.expireRunner:834", "InitScheduler:73", "Scheduler.load:441", "InitScheduler:68", "Scheduler.GetRunner:98", "Scheduler.processPending:123", "Scheduler.processPending$1:273", "InitScheduler:76", "Scheduler.processPending$1:272", "InitScheduler:71", "Scheduler.processPending:306", "Scheduler.processCompleted:399", "Server.GenerateRoutes:1206", "Serve:1308", "Server.scheduleRunner:109", "Server.GenerateHandler:167", "Serve:1329", "Serve:1355", "Server.PsHandler:1432", "Server.ChatHandler:1498", "blobDownload.release:432", "downloadBlob:498", "blobDownloadPart.Write:120", "blobDownload.Prepare:142", "blobDownload.Wait:450", "blobDownload.downloadChunk$1:346", "blobDownload.Prepare:178", "blobDownload.run:216", "blobDownload.Wait:447", "blobDownload.run$2:295", "blobDownload.downloadChunk$2:374", "blobDownloadPart.Name:106", "blobDownload.Prepare:128", "blobDownload.run:218", "blobDownload.run:322", "blobDownload.Prepare:143", "blobDownload.run:275", "blobDownload.newPart:391", "blobDownload.newPart:396", "blobDownload.Prepare:141", "blobDownload.Prepare:155", "blobDownload.run:225", "blobDownload.Wait:449", "blobDownload.Prepare:133", "blobDownload.Run:185", "blobDownload.Wait:443", "blobDownload.Run:186", "blobDownload.Wait:444", "blobDownload.acquire:427", "blobDownload.release:431", "blobUpload.release:312", "uploadBlob:390", "blobUpload.Prepare:87", "blobUpload.Wait:332", "progressWriter.Write:357", "progressWriter.Rollback:362", "blobUpload.Prepare:54", "blobUpload.Run:128", "blobUpload.Run:188", "blobUpload.uploadPart:268", "blobUpload.Wait:329", "blobUpload.Run$1:161", "blobUpload.Prepare:107", "blobUpload.Run:145", "blobUpload.Prepare:82", "blobUpload.Wait:331", "blobUpload.Prepare:88", "blobUpload.Run:212", "blobUpload.Wait:335", "blobUpload.Run:132", "blobUpload.Run:175", "blobUpload.Wait:336", "blobUpload.Run:136", "blobUpload.Run:141", "blobUpload.uploadPart:225", "blobUpload.Prepare:120", "blobUpload.Prepare:121", "blobUpload.Run:149", "blobUpload.uploadPart:251", "blobUpload.acquire:307", "blobUpload.release:311", "Server.CreateBlobHandler:1038", "Server.CreateBlobHandler:1047", "Scheduler.load:457", "runnerRef.unload:591", "runnerRef.needsReload:605", "runnerRef.needsReload:610", "Server.PsHandler:1446", "Scheduler.load:461", "Server.PsHandler:1447", "Scheduler.load:460", "runnerRef.waitForVRAMRecovery$1:679", "Scheduler.processPending:289", "Scheduler.processPending:290", "Scheduler.processPending:291", "Scheduler.processCompleted:338", "Scheduler.processCompleted:339", "Scheduler.processCompleted:340", "Scheduler.processCompleted:345", "LlmRequest.useLoadedRunner:417", "LlmRequest.useLoadedRunner:418", "LlmRequest.useLoadedRunner:419", "runnerRef.unload:582", "runnerRef.unload:583", "runnerRef.unload:584", "Scheduler.expireRunner:838", "Scheduler.expireRunner:839", "Scheduler.expireRunner:840", "Scheduler.processCompleted$1:349", "Scheduler.processCompleted$1:350", "Scheduler.processCompleted$1:351", "Server.PsHandler:1450", "Scheduler.processCompleted:355", "Scheduler.processCompleted:359", "Scheduler.expireRunner:837", "Scheduler.load:459", "Scheduler.filterGPUsWithoutLoadingModels:543", "runnerRef.unload:592", "runnerRef.waitForVRAMRecovery:645", "Server.scheduleRunner:117", "LlmRequest.useLoadedRunner:411", "Scheduler.load:456", "Scheduler.updateFreeSpace:503", "Scheduler.updateFreeSpace:505", "runnerRef.unload:586", "runnerRef.unload:587", "runnerRef.unload:590", "runnerRef.needsReload:625", "Scheduler.unloadAllRunners:824", "Scheduler.unloadAllRunners:826", "Scheduler.load:462", "Scheduler.filterGPUsWithoutLoadingModels:542", "runnerRef.needsReload:601", "Scheduler.load$1:484", "Server.PsHandler:1434", "Scheduler.load:454", "runnerRef.unload:589", "runnerRef.needsReload:622", "Scheduler.processPending:288", "Scheduler.processPending:301", "Scheduler.processCompleted:337", "Scheduler.processCompleted:357", "Scheduler.processCompleted:365", "Scheduler.processCompleted:371", "Scheduler.load:455", "ByDurationAndName.Less:701", "Scheduler.processCompleted$1:346", "Scheduler.load$1:479", "runnerRef.waitForVRAMRecovery$1:667", "Scheduler.load:465", "runnerRef.needsReload:618", "Scheduler.processCompleted:334", "Scheduler.processCompleted:335", "Scheduler.processCompleted:370", "LlmRequest.useLoadedRunner:416", "Scheduler.load:463", "Scheduler.findRunnerToUnload:808", "Scheduler.expireRunner:843", "Scheduler.load$1:477", "Server.PsHandler:1457", "Scheduler.processPending:293", "Scheduler.processCompleted:336", "LlmRequest.useLoadedRunner:422", "Scheduler.load:458", "ByDurationAndName.Less:695", "Scheduler.expireRunner:842"]
 def hbNames : List String := ["-", "holder (C01: no unload while a request holds the runner)", "doneclose (write before close(done), read after <-done)"]
 
 private def mk (site cls : Nat) (kind : Kind) (locks : List LockRef) (thread : Nat) (single init racy atomic : Bool)
@@ -31,7 +31,7 @@ def accesses : List Access := [
   mk 14 3 .read [] 0 true false false false [] [13] [] true false false,  -- 14 Scheduler.getGpuFn Scheduler.processPending:169 @Scheduler.Run$1
   mk 15 4 .write [] 18 true true false false [10, 11] [] [] true false false,  -- 15 Scheduler.loadFn InitScheduler:78 @main
   mk 16 4 .read [] 0 true false false false [] [13] [] true false false,  -- 16 Scheduler.loadFn Scheduler.processPending:217 @Scheduler.Run$1
-  mk 17 5 .mapIter [⟨0, false⟩] 11 false false false false [] [11] [] true false false,  -- 17 Scheduler.loaded Server.PsHandler:1424 @api
+  mk 17 5 .mapIter [⟨0, false⟩] 11 false false false false [] [11] [] true false false,  -- 17 Scheduler.loaded Server.PsHandler:1433 @api
   mk 18 5 .write [] 18 true true false false [10, 11] [] [] true false false,  -- 18 Scheduler.loaded InitScheduler:72 @main
   mk 19 5 .mapRead [⟨0, false⟩] 0 true false false false [] [13] [] true false false,  -- 19 Scheduler.loaded Scheduler.processPending:145 @Scheduler.Run$1
   mk 20 5 .mapRead [⟨0, false⟩] 1 true false false false [] [14] [] true false false,  -- 20 Scheduler.loaded Scheduler.processCompleted:327 @Scheduler.Run$2
@@ -55,202 +55,203 @@ def accesses : List Access := [
   mk 38 9 .write [] 18 true true false false [10, 11] [] [] true false false,  -- 38 Scheduler.unloadedCh InitScheduler:71 @main
   mk 39 9 .read [] 0 true false false false [] [13] [] true false false,  -- 39 Scheduler.unloadedCh Scheduler.processPending:306 @Scheduler.Run$1
   mk 40 9 .read [] 1 true false false false [] [14] [] true false false,  -- 40 Scheduler.unloadedCh Scheduler.processCompleted:399 @Scheduler.Run$2
-  mk 41 10 .read [] 18 true false false false [10, 11] [] [] true false false,  -- 41 Server.addr Server.GenerateRoutes:1197 @main
-  mk 42 10 .write [] 18 true true false false [10, 11] [] [] true false false,  -- 42 Server.addr Serve:1299 @main
+  mk 41 10 .read [] 18 true false false false [10, 11] [] [] true false false,  -- 41 Server.addr Server.GenerateRoutes:1206 @main
+  mk 42 10 .write [] 18 true true false false [10, 11] [] [] true false false,  -- 42 Server.addr Serve:1308 @main
   mk 43 11 .read [] 11 false false false false [] [11] [] true false false,  -- 43 Server.sched Server.scheduleRunner:109 @api
-  mk 44 11 .read [] 11 false false false false [] [11] [] true false false,  -- 44 Server.sched Server.GenerateHandler:162 @api
-  mk 45 11 .write [] 18 true false false false [10, 11] [] [] true false false,  -- 45 Server.sched Serve:1320 @main
-  mk 46 11 .read [] 18 true false false false [11] [] [] true false false,  -- 46 Server.sched Serve:1346 @main
-  mk 47 11 .read [] 11 false false false false [] [11] [] true false false,  -- 47 Server.sched Server.PsHandler:1423 @api
-  mk 17 11 .read [⟨0, false⟩] 11 false false false false [] [11] [] true false false,  -- 48 Server.sched Server.PsHandler:1424 @api
-  mk 48 11 .read [] 11 false false false false [] [11] [] true false false,  -- 49 Server.sched Server.ChatHandler:1489 @api
-  mk 49 12 .write [] 16 true false false false [2] [5, 11] [] true false false,  -- 50 blobDownload.CancelFunc blobDownload.run:217 @go:downloadBlob:download.Run
-  mk 50 12 .read [] 8 false false false false [] [11] [] true false false,  -- 51 blobDownload.CancelFunc blobDownload.release:433 @Server.CreateHandler$1
-  mk 50 12 .read [] 9 false false false false [] [11] [] true false false,  -- 52 blobDownload.CancelFunc blobDownload.release:433 @Server.PullHandler$1
-  mk 51 13 .write [] 11 false false false true [] [11] [] true false false,  -- 53 blobDownload.Completed blobDownloadPart.Write:120 @api
-  mk 52 13 .write [] 8 false false false true [5] [11] [] true false false,  -- 54 blobDownload.Completed blobDownload.Prepare:142 @Server.CreateHandler$1
-  mk 52 13 .write [] 9 false false false true [5] [11] [] true false false,  -- 55 blobDownload.Completed blobDownload.Prepare:142 @Server.PullHandler$1
-  mk 53 13 .read [] 8 false false false true [] [11] [] true false false,  -- 56 blobDownload.Completed blobDownload.Wait:451 @Server.CreateHandler$1
-  mk 53 13 .read [] 9 false false false true [] [11] [] true false false,  -- 57 blobDownload.Completed blobDownload.Wait:451 @Server.PullHandler$1
-  mk 54 13 .write [] 12 false false false true [] [2, 5, 11] [] true false false,  -- 58 blobDownload.Completed blobDownload.downloadChunk$1:347 @blobDownload.downloadChunk$1
-  mk 55 14 .read [] 8 false false false false [5] [11] [] true false false,  -- 59 blobDownload.Digest blobDownload.Prepare:178 @Server.CreateHandler$1
-  mk 55 14 .read [] 9 false false false false [5] [11] [] true false false,  -- 60 blobDownload.Digest blobDownload.Prepare:178 @Server.PullHandler$1
-  mk 56 14 .read [] 16 true false false false [2] [5, 11] [] true false false,  -- 61 blobDownload.Digest blobDownload.run:216 @go:downloadBlob:download.Run
-  mk 57 14 .read [] 8 false false false false [] [11] [] true false false,  -- 62 blobDownload.Digest blobDownload.Wait:448 @Server.CreateHandler$1
-  mk 57 14 .read [] 9 false false false false [] [11] [] true false false,  -- 63 blobDownload.Digest blobDownload.Wait:448 @Server.PullHandler$1
-  mk 58 14 .write [] 8 false true false false [5] [11] [] true false false,  -- 64 blobDownload.Digest downloadBlob:494 @Server.CreateHandler$1
-  mk 58 14 .write [] 9 false true false false [5] [11] [] true false false,  -- 65 blobDownload.Digest downloadBlob:494 @Server.PullHandler$1
-  mk 59 14 .read [] 14 false false false false [] [2, 5, 11] [] true false false,  -- 66 blobDownload.Digest blobDownload.run$2:296 @blobDownload.run$2
-  mk 60 14 .read [] 13 false false false false [] [2, 5, 11] [] true false false,  -- 67 blobDownload.Digest blobDownload.downloadChunk$2:375 @blobDownload.downloadChunk$2
-  mk 61 15 .read [] 8 false false false false [] [11] [] true false false,  -- 68 blobDownload.Name blobDownloadPart.Name:106 @Server.CreateHandler$1
-  mk 61 15 .read [] 9 false false false false [] [11] [] true false false,  -- 69 blobDownload.Name blobDownloadPart.Name:106 @Server.PullHandler$1
-  mk 61 15 .read [] 12 false false false false [] [11] [] true false false,  -- 70 blobDownload.Name blobDownloadPart.Name:106 @blobDownload.downloadChunk$1
-  mk 62 15 .read [] 8 false false false false [5] [11] [] true false false,  -- 71 blobDownload.Name blobDownload.Prepare:128 @Server.CreateHandler$1
-  mk 62 15 .read [] 9 false false false false [5] [11] [] true false false,  -- 72 blobDownload.Name blobDownload.Prepare:128 @Server.PullHandler$1
-  mk 63 15 .read [] 16 true false false false [2] [5, 11] [] true false false,  -- 73 blobDownload.Name blobDownload.run:219 @go:downloadBlob:download.Run
-  mk 64 15 .read [] 16 true false false false [] [5, 11] [] true false false,  -- 74 blobDownload.Name blobDownload.run:323 @go:downloadBlob:download.Run
-  mk 58 15 .write [] 8 false true false false [5] [11] [] true false false,  -- 75 blobDownload.Name downloadBlob:494 @Server.CreateHandler$1
-  mk 58 15 .write [] 9 false true false false [5] [11] [] true false false,  -- 76 blobDownload.Name downloadBlob:494 @Server.PullHandler$1
-  mk 65 16 .read [] 8 false false false false [5] [11] [] true false false,  -- 77 blobDownload.Parts blobDownload.Prepare:143 @Server.CreateHandler$1
-  mk 65 16 .read [] 9 false false false false [5] [11] [] true false false,  -- 78 blobDownload.Parts blobDownload.Prepare:143 @Server.PullHandler$1
-  mk 65 16 .write [] 8 false false false false [5] [11] [] true false false,  -- 79 blobDownload.Parts blobDownload.Prepare:143 @Server.CreateHandler$1
-  mk 65 16 .write [] 9 false false false false [5] [11] [] true false false,  -- 80 blobDownload.Parts blobDownload.Prepare:143 @Server.PullHandler$1
-  mk 66 16 .read [] 16 true false false false [] [5, 11] [] true false false,  -- 81 blobDownload.Parts blobDownload.run:276 @go:downloadBlob:download.Run
-  mk 67 16 .read [] 8 false false false false [5] [11] [] true false false,  -- 82 blobDownload.Parts blobDownload.newPart:392 @Server.CreateHandler$1
-  mk 67 16 .read [] 9 false false false false [5] [11] [] true false false,  -- 83 blobDownload.Parts blobDownload.newPart:392 @Server.PullHandler$1
-  mk 68 16 .write [] 8 false false false false [5] [11] [] true false false,  -- 84 blobDownload.Parts blobDownload.newPart:397 @Server.CreateHandler$1
-  mk 68 16 .write [] 9 false false false false [5] [11] [] true false false,  -- 85 blobDownload.Parts blobDownload.newPart:397 @Server.PullHandler$1
-  mk 69 17 .write [] 8 false false false false [5] [11] [] true false false,  -- 86 blobDownload.Total blobDownload.Prepare:141 @Server.CreateHandler$1
-  mk 69 17 .write [] 9 false false false false [5] [11] [] true false false,  -- 87 blobDownload.Total blobDownload.Prepare:141 @Server.PullHandler$1
-  mk 70 17 .read [] 8 false false false false [5] [11] [] true false false,  -- 88 blobDownload.Total blobDownload.Prepare:155 @Server.CreateHandler$1
-  mk 70 17 .read [] 9 false false false false [5] [11] [] true false false,  -- 89 blobDownload.Total blobDownload.Prepare:155 @Server.PullHandler$1
-  mk 71 17 .read [] 16 true false false false [2] [5, 11] [] true false false,  -- 90 blobDownload.Total blobDownload.run:226 @go:downloadBlob:download.Run
-  mk 72 17 .read [] 8 false false false false [] [11] [] true false false,  -- 91 blobDownload.Total blobDownload.Wait:450 @Server.CreateHandler$1
-  mk 72 17 .read [] 9 false false false false [] [11] [] true false false,  -- 92 blobDownload.Total blobDownload.Wait:450 @Server.PullHandler$1
-  mk 73 18 .write [] 8 false false false false [5] [11] [] true false false,  -- 93 blobDownload.done blobDownload.Prepare:133 @Server.CreateHandler$1
-  mk 73 18 .write [] 9 false false false false [5] [11] [] true false false,  -- 94 blobDownload.done blobDownload.Prepare:133 @Server.PullHandler$1
-  mk 74 18 .read [] 16 true false false false [] [5, 11] [] true false false,  -- 95 blobDownload.done blobDownload.Run:185 @go:downloadBlob:download.Run
-  mk 75 18 .read [] 8 false false false false [] [11] [2] true false false,  -- 96 blobDownload.done blobDownload.Wait:444 @Server.CreateHandler$1
-  mk 75 18 .read [] 9 false false false false [] [11] [2] true false false,  -- 97 blobDownload.done blobDownload.Wait:444 @Server.PullHandler$1
-  mk 76 19 .write [] 16 true false false false [] [5, 11] [2] true false false,  -- 98 blobDownload.err blobDownload.Run:186 @go:downloadBlob:download.Run
-  mk 77 19 .read [] 8 false false false false [] [11] [2] true false false,  -- 99 blobDownload.err blobDownload.Wait:445 @Server.CreateHandler$1
-  mk 77 19 .read [] 9 false false false false [] [11] [2] true false false,  -- 100 blobDownload.err blobDownload.Wait:445 @Server.PullHandler$1
-  mk 78 20 .write [] 8 false false false true [] [11] [] true false false,  -- 101 blobDownload.references blobDownload.acquire:428 @Server.CreateHandler$1
-  mk 78 20 .write [] 9 false false false true [] [11] [] true false false,  -- 102 blobDownload.references blobDownload.acquire:428 @Server.PullHandler$1
-  mk 79 20 .write [] 8 false false false true [] [11] [] true false false,  -- 103 blobDownload.references blobDownload.release:432 @Server.CreateHandler$1
-  mk 79 20 .write [] 9 false false false true [] [11] [] true false false,  -- 104 blobDownload.references blobDownload.release:432 @Server.PullHandler$1
-  mk 80 21 .write [] 17 true false false false [21] [11, 22] [] true false false,  -- 105 blobUpload.CancelFunc blobUpload.Run:129 @go:uploadBlob:upload.Run
-  mk 81 21 .read [] 10 false false false false [] [11] [] true false false,  -- 106 blobUpload.CancelFunc blobUpload.release:313 @Server.PushHandler$1
-  mk 82 22 .write [] 10 false false false true [22] [11] [] true false false,  -- 107 blobUpload.Completed blobUpload.Prepare:87 @Server.PushHandler$1
-  mk 83 22 .read [] 10 false false false true [] [11] [] true false false,  -- 108 blobUpload.Completed blobUpload.Wait:333 @Server.PushHandler$1
-  mk 84 22 .write [] 11 false false false true [] [11] [] true false false,  -- 109 blobUpload.Completed progressWriter.Write:358 @api
-  mk 85 22 .write [] 15 false false false true [] [11, 21, 22] [] true false false,  -- 110 blobUpload.Completed progressWriter.Rollback:363 @blobUpload.Run$1
-  mk 86 23 .read [] 10 false false false false [22] [11] [] true false false,  -- 111 blobUpload.Layer blobUpload.Prepare:54 @Server.PushHandler$1
-  mk 87 23 .read [] 17 true false false false [21] [11, 22] [] true false false,  -- 112 blobUpload.Layer blobUpload.Run:128 @go:uploadBlob:upload.Run
-  mk 88 23 .read [] 17 true false false false [] [11, 22] [] true false false,  -- 113 blobUpload.Layer blobUpload.Run:189 @go:uploadBlob:upload.Run
-  mk 89 23 .read [] 15 false false false false [] [11, 21, 22] [] true false false,  -- 114 blobUpload.Layer blobUpload.uploadPart:269 @blobUpload.Run$1
-  mk 90 23 .read [] 10 false false false false [] [11] [] true false false,  -- 115 blobUpload.Layer blobUpload.Wait:330 @Server.PushHandler$1
-  mk 91 23 .write [] 10 false true false false [22] [11] [] true false false,  -- 116 blobUpload.Layer uploadBlob:388 @Server.PushHandler$1
-  mk 92 23 .read [] 15 false false false false [] [11, 21, 22] [] true false false,  -- 117 blobUpload.Layer blobUpload.Run$1:162 @blobUpload.Run$1
-  mk 93 24 .read [] 10 false false false false [22] [11] [] true false false,  -- 118 blobUpload.Parts blobUpload.Prepare:107 @Server.PushHandler$1
-  mk 93 24 .write [] 10 false false false false [22] [11] [] true false false,  -- 119 blobUpload.Parts blobUpload.Prepare:107 @Server.PushHandler$1
-  mk 94 24 .read [] 17 true false false false [] [11, 22] [] true false false,  -- 120 blobUpload.Parts blobUpload.Run:146 @go:uploadBlob:upload.Run
-  mk 95 25 .write [] 10 false false false false [22] [11] [] true false false,  -- 121 blobUpload.Total blobUpload.Prepare:82 @Server.PushHandler$1
-  mk 82 25 .read [] 10 false false false false [22] [11] [] true false false,  -- 122 blobUpload.Total blobUpload.Prepare:87 @Server.PushHandler$1
-  mk 96 25 .read [] 10 false false false false [] [11] [] true false false,  -- 123 blobUpload.Total blobUpload.Wait:332 @Server.PushHandler$1
-  mk 97 26 .write [] 10 false false false false [22] [11] [] true false false,  -- 124 blobUpload.done blobUpload.Prepare:88 @Server.PushHandler$1
-  mk 98 26 .write [] 17 true false false false [] [11, 22] [] true false false,  -- 125 blobUpload.done blobUpload.Run:213 @go:uploadBlob:upload.Run
-  mk 99 26 .read [] 10 false false false false [] [11] [] true false false,  -- 126 blobUpload.done blobUpload.Wait:336 @Server.PushHandler$1
-  mk 100 27 .write [] 17 true false false false [21] [11, 22] [] true false false,  -- 127 blobUpload.err blobUpload.Run:133 @go:uploadBlob:upload.Run
-  mk 101 27 .write [] 17 true false false false [] [11, 22] [] true false false,  -- 128 blobUpload.err blobUpload.Run:176 @go:uploadBlob:upload.Run
-  mk 99 27 .read [] 10 false false false false [] [11] [] false false false,  -- 129 blobUpload.err blobUpload.Wait:336 @Server.PushHandler$1
-  mk 102 27 .read [] 10 false false false false [] [11] [] true false false,  -- 130 blobUpload.err blobUpload.Wait:337 @Server.PushHandler$1
-  mk 103 28 .write [] 17 true false false false [21] [11, 22] [] true false false,  -- 131 blobUpload.file blobUpload.Run:137 @go:uploadBlob:upload.Run
-  mk 104 28 .read [] 17 true false false false [21] [11, 22] [] true false false,  -- 132 blobUpload.file blobUpload.Run:142 @go:uploadBlob:upload.Run
-  mk 105 28 .read [] 15 false false false false [] [11, 21, 22] [] true false false,  -- 133 blobUpload.file blobUpload.uploadPart:226 @blobUpload.Run$1
-  mk 106 29 .write [] 10 false false false false [22] [11] [] true false false,  -- 134 blobUpload.nextURL blobUpload.Prepare:120 @Server.PushHandler$1
-  mk 107 29 .read [] 10 false false false false [22] [11] [] true false false,  -- 135 blobUpload.nextURL blobUpload.Prepare:121 @Server.PushHandler$1
-  mk 108 29 .read [] 17 true false false false [] [11, 22] [] true false false,  -- 136 blobUpload.nextURL blobUpload.Run:150 @go:uploadBlob:upload.Run
-  mk 109 29 .read [] 15 false false false false [] [11, 21, 22] [] true false false,  -- 137 blobUpload.nextURL blobUpload.uploadPart:252 @blobUpload.Run$1
-  mk 110 30 .write [] 10 false false false true [] [11] [] true false false,  -- 138 blobUpload.references blobUpload.acquire:308 @Server.PushHandler$1
-  mk 111 30 .write [] 10 false false false true [] [11] [] true false false,  -- 139 blobUpload.references blobUpload.release:312 @Server.PushHandler$1
-  mk 56 31 .write [] 16 false false false true [] [11] [] true false false,  -- 140 global.blobDownloadManager blobDownload.run:216 @go:downloadBlob:download.Run
-  mk 58 31 .write [] 8 false false false true [] [11] [] true false false,  -- 141 global.blobDownloadManager downloadBlob:494 @Server.CreateHandler$1
-  mk 58 31 .write [] 9 false false false true [] [11] [] true false false,  -- 142 global.blobDownloadManager downloadBlob:494 @Server.PullHandler$1
-  mk 87 32 .write [] 17 false false false true [] [11] [] true false false,  -- 143 global.blobUploadManager blobUpload.Run:128 @go:uploadBlob:upload.Run
-  mk 91 32 .write [] 10 false false false true [] [11] [] true false false,  -- 144 global.blobUploadManager uploadBlob:388 @Server.PushHandler$1
-  mk 112 33 .mapRead [] 11 false false false false [] [11] [] true false false,  -- 145 global.intermediateBlobs Server.CreateBlobHandler:1029 @api
-  mk 113 33 .mapDelete [] 11 false false false false [] [11] [] true false false,  -- 146 global.intermediateBlobs Server.CreateBlobHandler:1038 @api
-  mk 114 34 .write [] 0 true true false false [] [13] [] true false false,  -- 147 runnerRef.Options Scheduler.load:457 @Scheduler.Run$1
-  mk 115 34 .write [⟨0, false⟩, ⟨1, true⟩] 1 true false false false [] [14] [1] true false false,  -- 148 runnerRef.Options runnerRef.unload:591 @Scheduler.Run$2
-  mk 116 34 .read [⟨1, true⟩] 0 true false false false [] [13] [] false false false,  -- 149 runnerRef.Options runnerRef.needsReload:605 @Scheduler.Run$1
-  mk 117 34 .read [⟨1, true⟩] 0 true false false false [] [13] [] true false true,  -- 150 runnerRef.Options runnerRef.needsReload:610 @Scheduler.Run$1
-  mk 118 35 .read [⟨0, false⟩] 11 false false false false [] [11] [] true true false,  -- 151 runnerRef.estimatedTotal Server.PsHandler:1437 @api
-  mk 119 35 .write [] 0 true true false false [] [13] [] true false false,  -- 152 runnerRef.estimatedTotal Scheduler.load:461 @Scheduler.Run$1
-  mk 120 36 .read [⟨0, false⟩] 11 false false false false [] [11] [] true true false,  -- 153 runnerRef.estimatedVRAM Server.PsHandler:1438 @api
-  mk 121 36 .write [] 0 true true false false [] [13] [] true false false,  -- 154 runnerRef.estimatedVRAM Scheduler.load:460 @Scheduler.Run$1
-  mk 122 36 .read [] 19 false false false false [] [14] [] true false false,  -- 155 runnerRef.estimatedVRAM runnerRef.waitForVRAMRecovery$1:679 @runnerRef.waitForVRAMRecovery$1
-  mk 123 37 .read [⟨1, true⟩] 0 true false false false [] [13] [] false false false,  -- 156 runnerRef.expireTimer Scheduler.processPending:289 @Scheduler.Run$1
-  mk 124 37 .read [⟨1, true⟩] 0 true false false false [] [13] [] true false true,  -- 157 runnerRef.expireTimer Scheduler.processPending:290 @Scheduler.Run$1
-  mk 125 37 .write [⟨1, true⟩] 0 true false false false [] [13] [] true false true,  -- 158 runnerRef.expireTimer Scheduler.processPending:291 @Scheduler.Run$1
-  mk 126 37 .read [⟨1, true⟩] 1 true false false false [] [14] [] false false false,  -- 159 runnerRef.expireTimer Scheduler.processCompleted:338 @Scheduler.Run$2
-  mk 127 37 .read [⟨1, true⟩] 1 true false false false [] [14] [] true false true,  -- 160 runnerRef.expireTimer Scheduler.processCompleted:339 @Scheduler.Run$2
-  mk 128 37 .write [⟨1, true⟩] 1 true false false false [] [14] [] true false true,  -- 161 runnerRef.expireTimer Scheduler.processCompleted:340 @Scheduler.Run$2
-  mk 129 37 .write [⟨1, true⟩] 1 true false false false [] [14] [] true false false,  -- 162 runnerRef.expireTimer Scheduler.processCompleted:345 @Scheduler.Run$2
-  mk 130 37 .read [⟨1, true⟩] 0 true false false false [] [13] [] false false true,  -- 163 runnerRef.expireTimer LlmRequest.useLoadedRunner:417 @Scheduler.Run$1
-  mk 131 37 .read [⟨1, true⟩] 0 true false false false [] [13] [] true false true,  -- 164 runnerRef.expireTimer LlmRequest.useLoadedRunner:418 @Scheduler.Run$1
-  mk 132 37 .write [⟨1, true⟩] 0 true false false false [] [13] [] true false true,  -- 165 runnerRef.expireTimer LlmRequest.useLoadedRunner:419 @Scheduler.Run$1
-  mk 133 37 .read [⟨0, false⟩, ⟨1, true⟩] 1 true false false false [] [14] [1] false false false,  -- 166 runnerRef.expireTimer runnerRef.unload:582 @Scheduler.Run$2
-  mk 134 37 .read [⟨0, false⟩, ⟨1, true⟩] 1 true false false false [] [14] [1] true false true,  -- 167 runnerRef.expireTimer runnerRef.unload:583 @Scheduler.Run$2
-  mk 135 37 .write [⟨0, false⟩, ⟨1, true⟩] 1 true false false false [] [14] [1] true false true,  -- 168 runnerRef.expireTimer runnerRef.unload:584 @Scheduler.Run$2
-  mk 136 37 .read [⟨0, false⟩, ⟨1, true⟩] 11 false false false false [] [11] [] false true false,  -- 169 runnerRef.expireTimer Scheduler.expireRunner:838 @api
-  mk 137 37 .read [⟨0, false⟩, ⟨1, true⟩] 11 false false false false [] [11] [] true true true,  -- 170 runnerRef.expireTimer Scheduler.expireRunner:839 @api
-  mk 138 37 .write [⟨0, false⟩, ⟨1, true⟩] 11 false false false false [] [11] [] true true true,  -- 171 runnerRef.expireTimer Scheduler.expireRunner:840 @api
-  mk 139 37 .read [⟨1, true⟩] 4 false false false false [] [14] [] false false false,  -- 172 runnerRef.expireTimer Scheduler.processCompleted$1:349 @Scheduler.processCompleted$1
-  mk 140 37 .read [⟨1, true⟩] 4 false false false false [] [14] [] true false true,  -- 173 runnerRef.expireTimer Scheduler.processCompleted$1:350 @Scheduler.processCompleted$1
-  mk 141 37 .write [⟨1, true⟩] 4 false false false false [] [14] [] true false true,  -- 174 runnerRef.expireTimer Scheduler.processCompleted$1:351 @Scheduler.processCompleted$1
-  mk 142 38 .read [⟨0, false⟩] 11 false false false false [] [11] [] true true false,  -- 175 runnerRef.expiresAt Server.PsHandler:1441 @api
-  mk 143 38 .write [⟨1, true⟩] 1 true false false false [] [14] [] true false false,  -- 176 runnerRef.expiresAt Scheduler.processCompleted:355 @Scheduler.Run$2
-  mk 144 38 .write [⟨1, true⟩] 1 true false false false [] [14] [] true false true,  -- 177 runnerRef.expiresAt Scheduler.processCompleted:359 @Scheduler.Run$2
-  mk 145 38 .write [⟨0, false⟩, ⟨1, true⟩] 11 false false false false [] [11] [] true true false,  -- 178 runnerRef.expiresAt Scheduler.expireRunner:837 @api
-  mk 146 39 .write [] 0 true true false false [] [13] [] true false false,  -- 179 runnerRef.gpus Scheduler.load:459 @Scheduler.Run$1
-  mk 147 39 .read [⟨0, false⟩] 0 true false false false [] [13] [] true true false,  -- 180 runnerRef.gpus Scheduler.filterGPUsWithoutLoadingModels:543 @Scheduler.Run$1
-  mk 148 39 .write [⟨0, false⟩, ⟨1, true⟩] 1 true false false false [] [14] [1] true false false,  -- 181 runnerRef.gpus runnerRef.unload:592 @Scheduler.Run$2
-  mk 149 39 .read [⟨0, false⟩, ⟨1, true⟩] 1 true false false false [] [14] [] true false false,  -- 182 runnerRef.gpus runnerRef.waitForVRAMRecovery:645 @Scheduler.Run$2
-  mk 150 40 .read [] 11 false false false false [] [11] [1] true false false,  -- 183 runnerRef.llama Server.scheduleRunner:117 @api
-  mk 151 40 .read [⟨1, true⟩] 0 true false false false [] [13] [] false false false,  -- 184 runnerRef.llama LlmRequest.useLoadedRunner:411 @Scheduler.Run$1
-  mk 152 40 .write [] 0 true true false false [] [13] [] true false false,  -- 185 runnerRef.llama Scheduler.load:456 @Scheduler.Run$1
-  mk 153 40 .read [⟨0, false⟩, ⟨1, true⟩] 0 true false false false [] [13] [] false true false,  -- 186 runnerRef.llama Scheduler.updateFreeSpace:503 @Scheduler.Run$1
-  mk 154 40 .read [⟨0, false⟩, ⟨1, true⟩] 0 true false false false [] [13] [] true true true,  -- 187 runnerRef.llama Scheduler.updateFreeSpace:505 @Scheduler.Run$1
-  mk 155 40 .read [⟨0, false⟩, ⟨1, true⟩] 1 true false false false [] [14] [1] false false false,  -- 188 runnerRef.llama runnerRef.unload:586 @Scheduler.Run$2
-  mk 156 40 .read [⟨0, false⟩, ⟨1, true⟩] 1 true false false false [] [14] [1] true false true,  -- 189 runnerRef.llama runnerRef.unload:587 @Scheduler.Run$2
-  mk 157 40 .write [⟨0, false⟩, ⟨1, true⟩] 1 true false false false [] [14] [1] true false false,  -- 190 runnerRef.llama runnerRef.unload:590 @Scheduler.Run$2
-  mk 158 40 .read [⟨1, true⟩] 0 true false false false [] [13] [] true false true,  -- 191 runnerRef.llama runnerRef.needsReload:625 @Scheduler.Run$1
-  mk 159 40 .read [⟨0, false⟩] 7 true false false false [] [10] [] false true false,  -- 192 runnerRef.llama Scheduler.unloadAllRunners:824 @Serve$2
-  mk 160 40 .read [⟨0, false⟩] 7 true false false false [] [10] [] true true false,  -- 193 runnerRef.llama Scheduler.unloadAllRunners:826 @Serve$2
-  mk 161 41 .write [] 0 true true false false [] [13] [] true false false,  -- 194 runnerRef.loading Scheduler.load:462 @Scheduler.Run$1
-  mk 162 41 .read [⟨0, false⟩] 0 true false false false [] [13] [] true true false,  -- 195 runnerRef.loading Scheduler.filterGPUsWithoutLoadingModels:542 @Scheduler.Run$1
-  mk 163 41 .read [⟨1, true⟩] 0 true false false false [] [13] [] true false false,  -- 196 runnerRef.loading runnerRef.needsReload:601 @Scheduler.Run$1
-  mk 164 41 .write [⟨1, true⟩] 2 false false false false [] [13] [] true false false,  -- 197 runnerRef.loading Scheduler.load$1:484 @Scheduler.load$1
-  mk 165 42 .read [⟨0, false⟩] 11 false false false false [] [11] [] true true false,  -- 198 runnerRef.model Server.PsHandler:1425 @api
-  mk 166 42 .write [] 0 true true false false [] [13] [] true false false,  -- 199 runnerRef.model Scheduler.load:454 @Scheduler.Run$1
-  mk 167 42 .write [⟨0, false⟩, ⟨1, true⟩] 1 true false false false [] [14] [1] true false false,  -- 200 runnerRef.model runnerRef.unload:589 @Scheduler.Run$2
-  mk 168 42 .read [⟨1, true⟩] 0 true false false false [] [13] [] true false true,  -- 201 runnerRef.model runnerRef.needsReload:622 @Scheduler.Run$1
-  mk 169 43 .read [⟨1, true⟩] 0 true false false false [] [13] [] true false false,  -- 202 runnerRef.modelPath Scheduler.processPending:288 @Scheduler.Run$1
-  mk 170 43 .read [] 0 true false false false [] [13] [] true false false,  -- 203 runnerRef.modelPath Scheduler.processPending:301 @Scheduler.Run$1
-  mk 171 43 .read [⟨1, true⟩] 1 true false false false [] [14] [] true false false,  -- 204 runnerRef.modelPath Scheduler.processCompleted:337 @Scheduler.Run$2
-  mk 172 43 .read [⟨1, true⟩] 1 true false false false [] [14] [] true false true,  -- 205 runnerRef.modelPath Scheduler.processCompleted:357 @Scheduler.Run$2
-  mk 173 43 .read [] 1 true false false false [] [14] [] true false false,  -- 206 runnerRef.modelPath Scheduler.processCompleted:365 @Scheduler.Run$2
-  mk 174 43 .read [⟨0, false⟩, ⟨1, true⟩] 1 true false false false [] [14] [] true false false,  -- 207 runnerRef.modelPath Scheduler.processCompleted:371 @Scheduler.Run$2
-  mk 175 43 .write [] 0 true true false false [] [13] [] true false false,  -- 208 runnerRef.modelPath Scheduler.load:455 @Scheduler.Run$1
-  mk 147 43 .read [⟨0, false⟩] 0 true false false false [] [13] [] true true false,  -- 209 runnerRef.modelPath Scheduler.filterGPUsWithoutLoadingModels:543 @Scheduler.Run$1
-  mk 176 43 .read [] 0 true false false false [] [13] [] true false false,  -- 210 runnerRef.modelPath ByDurationAndName.Less:701 @Scheduler.Run$1
-  mk 177 43 .read [] 4 false false false false [] [14] [] true false false,  -- 211 runnerRef.modelPath Scheduler.processCompleted$1:346 @Scheduler.processCompleted$1
-  mk 178 43 .read [⟨1, true⟩] 2 false false false false [] [13] [] true false false,  -- 212 runnerRef.modelPath Scheduler.load$1:479 @Scheduler.load$1
-  mk 179 43 .read [] 19 false false false false [] [14] [] true false false,  -- 213 runnerRef.modelPath runnerRef.waitForVRAMRecovery$1:667 @runnerRef.waitForVRAMRecovery$1
-  mk 180 44 .write [] 0 true true false false [] [13] [] true false false,  -- 214 runnerRef.numParallel Scheduler.load:465 @Scheduler.Run$1
-  mk 181 44 .read [⟨1, true⟩] 0 true false false false [] [13] [] true false true,  -- 215 runnerRef.numParallel runnerRef.needsReload:618 @Scheduler.Run$1
-  mk 169 45 .read [⟨1, true⟩] 0 true false false false [] [13] [] true false false,  -- 216 runnerRef.refCount Scheduler.processPending:288 @Scheduler.Run$1
-  mk 182 45 .write [⟨1, true⟩] 1 true false false false [] [14] [] true false false,  -- 217 runnerRef.refCount Scheduler.processCompleted:334 @Scheduler.Run$2
-  mk 183 45 .read [⟨1, true⟩] 1 true false false false [] [14] [] true false false,  -- 218 runnerRef.refCount Scheduler.processCompleted:335 @Scheduler.Run$2
-  mk 184 45 .read [⟨0, false⟩, ⟨1, true⟩] 1 true false false false [] [14] [] true false false,  -- 219 runnerRef.refCount Scheduler.processCompleted:370 @Scheduler.Run$2
-  mk 185 45 .write [⟨1, true⟩] 0 true false false false [] [13] [] true false true,  -- 220 runnerRef.refCount LlmRequest.useLoadedRunner:416 @Scheduler.Run$1
-  mk 186 45 .write [] 0 true true false false [] [13] [] true false false,  -- 221 runnerRef.refCount Scheduler.load:463 @Scheduler.Run$1
-  mk 187 45 .read [⟨1, true⟩] 0 true false false false [] [13] [] true false false,  -- 222 runnerRef.refCount Scheduler.findRunnerToUnload:808 @Scheduler.Run$1
-  mk 188 45 .read [⟨0, false⟩, ⟨1, true⟩] 11 false false false false [] [11] [] true true false,  -- 223 runnerRef.refCount Scheduler.expireRunner:843 @api
-  mk 189 45 .write [⟨1, true⟩] 2 false false false false [] [13] [] true false false,  -- 224 runnerRef.refCount Scheduler.load$1:477 @Scheduler.load$1
-  mk 190 46 .read [⟨0, false⟩] 11 false false false false [] [11] [] true true false,  -- 225 runnerRef.sessionDuration Server.PsHandler:1448 @api
-  mk 191 46 .write [⟨1, true⟩] 0 true false false false [] [13] [] true false false,  -- 226 runnerRef.sessionDuration Scheduler.processPending:293 @Scheduler.Run$1
-  mk 192 46 .read [⟨1, true⟩] 1 true false false false [] [14] [] true false false,  -- 227 runnerRef.sessionDuration Scheduler.processCompleted:336 @Scheduler.Run$2
-  mk 172 46 .read [⟨1, true⟩] 1 true false false false [] [14] [] true false true,  -- 228 runnerRef.sessionDuration Scheduler.processCompleted:357 @Scheduler.Run$2
-  mk 193 46 .write [⟨1, true⟩] 0 true false false false [] [13] [] true false true,  -- 229 runnerRef.sessionDuration LlmRequest.useLoadedRunner:422 @Scheduler.Run$1
-  mk 194 46 .write [] 0 true true false false [] [13] [] true false false,  -- 230 runnerRef.sessionDuration Scheduler.load:458 @Scheduler.Run$1
-  mk 195 46 .read [] 0 true false false false [] [13] [] true false false,  -- 231 runnerRef.sessionDuration ByDurationAndName.Less:695 @Scheduler.Run$1
-  mk 196 46 .write [⟨0, false⟩, ⟨1, true⟩] 11 false false false false [] [11] [] true true false  -- 232 runnerRef.sessionDuration Scheduler.expireRunner:842 @api
+  mk 44 11 .read [] 11 false false false false [] [11] [] true false false,  -- 44 Server.sched Server.GenerateHandler:167 @api
+  mk 45 11 .write [] 18 true false false false [10, 11] [] [] true false false,  -- 45 Server.sched Serve:1329 @main
+  mk 46 11 .read [] 18 true false false false [11] [] [] true false false,  -- 46 Server.sched Serve:1355 @main
+  mk 47 11 .read [] 11 false false false false [] [11] [] true false false,  -- 47 Server.sched Server.PsHandler:1432 @api
+  mk 17 11 .read [⟨0, false⟩] 11 false false false false [] [11] [] true false false,  -- 48 Server.sched Server.PsHandler:1433 @api
+  mk 48 11 .read [] 11 false false false false [] [11] [] true false false,  -- 49 Server.sched Server.ChatHandler:1498 @api
+  mk 49 12 .read [] 8 false false false false [] [11] [] true false false,  -- 50 blobDownload.CancelFunc blobDownload.release:432 @Server.CreateHandler$1
+  mk 49 12 .read [] 9 false false false false [] [11] [] true false false,  -- 51 blobDownload.CancelFunc blobDownload.release:432 @Server.PullHandler$1
+  mk 50 12 .write [] 8 false true false false [5] [11] [] true false false,  -- 52 blobDownload.CancelFunc downloadBlob:498 @Server.CreateHandler$1
+  mk 50 12 .write [] 9 false true false false [5] [11] [] true false false,  -- 53 blobDownload.CancelFunc downloadBlob:498 @Server.PullHandler$1
+  mk 51 13 .write [] 11 false false false true [] [11] [] true false false,  -- 54 blobDownload.Completed blobDownloadPart.Write:120 @api
+  mk 52 13 .write [] 8 false false false true [5] [11] [] true false false,  -- 55 blobDownload.Completed blobDownload.Prepare:142 @Server.CreateHandler$1
+  mk 52 13 .write [] 9 false false false true [5] [11] [] true false false,  -- 56 blobDownload.Completed blobDownload.Prepare:142 @Server.PullHandler$1
+  mk 53 13 .read [] 8 false false false true [] [11] [] true false false,  -- 57 blobDownload.Completed blobDownload.Wait:450 @Server.CreateHandler$1
+  mk 53 13 .read [] 9 false false false true [] [11] [] true false false,  -- 58 blobDownload.Completed blobDownload.Wait:450 @Server.PullHandler$1
+  mk 54 13 .write [] 12 false false false true [] [2, 5, 11] [] true false false,  -- 59 blobDownload.Completed blobDownload.downloadChunk$1:346 @blobDownload.downloadChunk$1
+  mk 55 14 .read [] 8 false false false false [5] [11] [] true false false,  -- 60 blobDownload.Digest blobDownload.Prepare:178 @Server.CreateHandler$1
+  mk 55 14 .read [] 9 false false false false [5] [11] [] true false false,  -- 61 blobDownload.Digest blobDownload.Prepare:178 @Server.PullHandler$1
+  mk 56 14 .read [] 16 true false false false [2] [5, 11] [] true false false,  -- 62 blobDownload.Digest blobDownload.run:216 @go:downloadBlob:download.Run
+  mk 57 14 .read [] 8 false false false false [] [11] [] true false false,  -- 63 blobDownload.Digest blobDownload.Wait:447 @Server.CreateHandler$1
+  mk 57 14 .read [] 9 false false false false [] [11] [] true false false,  -- 64 blobDownload.Digest blobDownload.Wait:447 @Server.PullHandler$1
+  mk 50 14 .write [] 8 false true false false [5] [11] [] true false false,  -- 65 blobDownload.Digest downloadBlob:498 @Server.CreateHandler$1
+  mk 50 14 .write [] 9 false true false false [5] [11] [] true false false,  -- 66 blobDownload.Digest downloadBlob:498 @Server.PullHandler$1
+  mk 58 14 .read [] 14 false false false false [] [2, 5, 11] [] true false false,  -- 67 blobDownload.Digest blobDownload.run$2:295 @blobDownload.run$2
+  mk 59 14 .read [] 13 false false false false [] [2, 5, 11] [] true false false,  -- 68 blobDownload.Digest blobDownload.downloadChunk$2:374 @blobDownload.downloadChunk$2
+  mk 60 15 .read [] 8 false false false false [] [11] [] true false false,  -- 69 blobDownload.Name blobDownloadPart.Name:106 @Server.CreateHandler$1
+  mk 60 15 .read [] 9 false false false false [] [11] [] true false false,  -- 70 blobDownload.Name blobDownloadPart.Name:106 @Server.PullHandler$1
+  mk 60 15 .read [] 12 false false false false [] [11] [] true false false,  -- 71 blobDownload.Name blobDownloadPart.Name:106 @blobDownload.downloadChunk$1
+  mk 61 15 .read [] 8 false false false false [5] [11] [] true false false,  -- 72 blobDownload.Name blobDownload.Prepare:128 @Server.CreateHandler$1
+  mk 61 15 .read [] 9 false false false false [5] [11] [] true false false,  -- 73 blobDownload.Name blobDownload.Prepare:128 @Server.PullHandler$1
+  mk 62 15 .read [] 16 true false false false [2] [5, 11] [] true false false,  -- 74 blobDownload.Name blobDownload.run:218 @go:downloadBlob:download.Run
+  mk 63 15 .read [] 16 true false false false [] [5, 11] [] true false false,  -- 75 blobDownload.Name blobDownload.run:322 @go:downloadBlob:download.Run
+  mk 50 15 .write [] 8 false true false false [5] [11] [] true false false,  -- 76 blobDownload.Name downloadBlob:498 @Server.CreateHandler$1
+  mk 50 15 .write [] 9 false true false false [5] [11] [] true false false,  -- 77 blobDownload.Name downloadBlob:498 @Server.PullHandler$1
+  mk 64 16 .read [] 8 false false false false [5] [11] [] true false false,  -- 78 blobDownload.Parts blobDownload.Prepare:143 @Server.CreateHandler$1
+  mk 64 16 .read [] 9 false false false false [5] [11] [] true false false,  -- 79 blobDownload.Parts blobDownload.Prepare:143 @Server.PullHandler$1
+  mk 64 16 .write [] 8 false false false false [5] [11] [] true false false,  -- 80 blobDownload.Parts blobDownload.Prepare:143 @Server.CreateHandler$1
+  mk 64 16 .write [] 9 false false false false [5] [11] [] true false false,  -- 81 blobDownload.Parts blobDownload.Prepare:143 @Server.PullHandler$1
+  mk 65 16 .read [] 16 true false false false [] [5, 11] [] true false false,  -- 82 blobDownload.Parts blobDownload.run:275 @go:downloadBlob:download.Run
+  mk 66 16 .read [] 8 false false false false [5] [11] [] true false false,  -- 83 blobDownload.Parts blobDownload.newPart:391 @Server.CreateHandler$1
+  mk 66 16 .read [] 9 false false false false [5] [11] [] true false false,  -- 84 blobDownload.Parts blobDownload.newPart:391 @Server.PullHandler$1
+  mk 67 16 .write [] 8 false false false false [5] [11] [] true false false,  -- 85 blobDownload.Parts blobDownload.newPart:396 @Server.CreateHandler$1
+  mk 67 16 .write [] 9 false false false false [5] [11] [] true false false,  -- 86 blobDownload.Parts blobDownload.newPart:396 @Server.PullHandler$1
+  mk 68 17 .write [] 8 false false false false [5] [11] [] true false false,  -- 87 blobDownload.Total blobDownload.Prepare:141 @Server.CreateHandler$1
+  mk 68 17 .write [] 9 false false false false [5] [11] [] true false false,  -- 88 blobDownload.Total blobDownload.Prepare:141 @Server.PullHandler$1
+  mk 69 17 .read [] 8 false false false false [5] [11] [] true false false,  -- 89 blobDownload.Total blobDownload.Prepare:155 @Server.CreateHandler$1
+  mk 69 17 .read [] 9 false false false false [5] [11] [] true false false,  -- 90 blobDownload.Total blobDownload.Prepare:155 @Server.PullHandler$1
+  mk 70 17 .read [] 16 true false false false [2] [5, 11] [] true false false,  -- 91 blobDownload.Total blobDownload.run:225 @go:downloadBlob:download.Run
+  mk 71 17 .read [] 8 false false false false [] [11] [] true false false,  -- 92 blobDownload.Total blobDownload.Wait:449 @Server.CreateHandler$1
+  mk 71 17 .read [] 9 false false false false [] [11] [] true false false,  -- 93 blobDownload.Total blobDownload.Wait:449 @Server.PullHandler$1
+  mk 72 18 .write [] 8 false false false false [5] [11] [] true false false,  -- 94 blobDownload.done blobDownload.Prepare:133 @Server.CreateHandler$1
+  mk 72 18 .write [] 9 false false false false [5] [11] [] true false false,  -- 95 blobDownload.done blobDownload.Prepare:133 @Server.PullHandler$1
+  mk 73 18 .read [] 16 true false false false [] [5, 11] [] true false false,  -- 96 blobDownload.done blobDownload.Run:185 @go:downloadBlob:download.Run
+  mk 74 18 .read [] 8 false false false false [] [11] [2] true false false,  -- 97 blobDownload.done blobDownload.Wait:443 @Server.CreateHandler$1
+  mk 74 18 .read [] 9 false false false false [] [11] [2] true false false,  -- 98 blobDownload.done blobDownload.Wait:443 @Server.PullHandler$1
+  mk 75 19 .write [] 16 true false false false [] [5, 11] [2] true false false,  -- 99 blobDownload.err blobDownload.Run:186 @go:downloadBlob:download.Run
+  mk 76 19 .read [] 8 false false false false [] [11] [2] true false false,  -- 100 blobDownload.err blobDownload.Wait:444 @Server.CreateHandler$1
+  mk 76 19 .read [] 9 false false false false [] [11] [2] true false false,  -- 101 blobDownload.err blobDownload.Wait:444 @Server.PullHandler$1
+  mk 77 20 .write [] 8 false false false true [] [11] [] true false false,  -- 102 blobDownload.references blobDownload.acquire:427 @Server.CreateHandler$1
+  mk 77 20 .write [] 9 false false false true [] [11] [] true false false,  -- 103 blobDownload.references blobDownload.acquire:427 @Server.PullHandler$1
+  mk 78 20 .write [] 8 false false false true [] [11] [] true false false,  -- 104 blobDownload.references blobDownload.release:431 @Server.CreateHandler$1
+  mk 78 20 .write [] 9 false false false true [] [11] [] true false false,  -- 105 blobDownload.references blobDownload.release:431 @Server.PullHandler$1
+  mk 79 21 .read [] 10 false false false false [] [11] [] true false false,  -- 106 blobUpload.CancelFunc blobUpload.release:312 @Server.PushHandler$1
+  mk 80 21 .write [] 10 false true false false [22] [11] [] true false false,  -- 107 blobUpload.CancelFunc uploadBlob:390 @Server.PushHandler$1
+  mk 81 22 .write [] 10 false false false true [22] [11] [] true false false,  -- 108 blobUpload.Completed blobUpload.Prepare:87 @Server.PushHandler$1
+  mk 82 22 .read [] 10 false false false true [] [11] [] true false false,  -- 109 blobUpload.Completed blobUpload.Wait:332 @Server.PushHandler$1
+  mk 83 22 .write [] 11 false false false true [] [11] [] true false false,  -- 110 blobUpload.Completed progressWriter.Write:357 @api
+  mk 84 22 .write [] 15 false false false true [] [11, 21, 22] [] true false false,  -- 111 blobUpload.Completed progressWriter.Rollback:362 @blobUpload.Run$1
+  mk 85 23 .read [] 10 false false false false [22] [11] [] true false false,  -- 112 blobUpload.Layer blobUpload.Prepare:54 @Server.PushHandler$1
+  mk 86 23 .read [] 17 true false false false [21] [11, 22] [] true false false,  -- 113 blobUpload.Layer blobUpload.Run:128 @go:uploadBlob:upload.Run
+  mk 87 23 .read [] 17 true false false false [] [11, 22] [] true false false,  -- 114 blobUpload.Layer blobUpload.Run:188 @go:uploadBlob:upload.Run
+  mk 88 23 .read [] 15 false false false false [] [11, 21, 22] [] true false false,  -- 115 blobUpload.Layer blobUpload.uploadPart:268 @blobUpload.Run$1
+  mk 89 23 .read [] 10 false false false false [] [11] [] true false false,  -- 116 blobUpload.Layer blobUpload.Wait:329 @Server.PushHandler$1
+  mk 80 23 .write [] 10 false true false false [22] [11] [] true false false,  -- 117 blobUpload.Layer uploadBlob:390 @Server.PushHandler$1
+  mk 90 23 .read [] 15 false false false false [] [11, 21, 22] [] true false false,  -- 118 blobUpload.Layer blobUpload.Run$1:161 @blobUpload.Run$1
+  mk 91 24 .read [] 10 false false false false [22] [11] [] true false false,  -- 119 blobUpload.Parts blobUpload.Prepare:107 @Server.PushHandler$1
+  mk 91 24 .write [] 10 false false false false [22] [11] [] true false false,  -- 120 blobUpload.Parts blobUpload.Prepare:107 @Server.PushHandler$1
+  mk 92 24 .read [] 17 true false false false [] [11, 22] [] true false false,  -- 121 blobUpload.Parts blobUpload.Run:145 @go:uploadBlob:upload.Run
+  mk 93 25 .write [] 10 false false false false [22] [11] [] true false false,  -- 122 blobUpload.Total blobUpload.Prepare:82 @Server.PushHandler$1
+  mk 81 25 .read [] 10 false false false false [22] [11] [] true false false,  -- 123 blobUpload.Total blobUpload.Prepare:87 @Server.PushHandler$1
+  mk 94 25 .read [] 10 false false false false [] [11] [] true false false,  -- 124 blobUpload.Total blobUpload.Wait:331 @Server.PushHandler$1
+  mk 95 26 .write [] 10 false false false false [22] [11] [] true false false,  -- 125 blobUpload.done blobUpload.Prepare:88 @Server.PushHandler$1
+  mk 96 26 .write [] 17 true false false false [] [11, 22] [] true false false,  -- 126 blobUpload.done blobUpload.Run:212 @go:uploadBlob:upload.Run
+  mk 97 26 .read [] 10 false false false false [] [11] [] true false false,  -- 127 blobUpload.done blobUpload.Wait:335 @Server.PushHandler$1
+  mk 98 27 .write [] 17 true false false false [21] [11, 22] [] true false false,  -- 128 blobUpload.err blobUpload.Run:132 @go:uploadBlob:upload.Run
+  mk 99 27 .write [] 17 true false false false [] [11, 22] [] true false false,  -- 129 blobUpload.err blobUpload.Run:175 @go:uploadBlob:upload.Run
+  mk 97 27 .read [] 10 false false false false [] [11] [] false false false,  -- 130 blobUpload.err blobUpload.Wait:335 @Server.PushHandler$1
+  mk 100 27 .read [] 10 false false false false [] [11] [] true false false,  -- 131 blobUpload.err blobUpload.Wait:336 @Server.PushHandler$1
+  mk 101 28 .write [] 17 true false false false [21] [11, 22] [] true false false,  -- 132 blobUpload.file blobUpload.Run:136 @go:uploadBlob:upload.Run
+  mk 102 28 .read [] 17 true false false false [21] [11, 22] [] true false false,  -- 133 blobUpload.file blobUpload.Run:141 @go:uploadBlob:upload.Run
+  mk 103 28 .read [] 15 false false false false [] [11, 21, 22] [] true false false,  -- 134 blobUpload.file blobUpload.uploadPart:225 @blobUpload.Run$1
+  mk 104 29 .write [] 10 false false false false [22] [11] [] true false false,  -- 135 blobUpload.nextURL blobUpload.Prepare:120 @Server.PushHandler$1
+  mk 105 29 .read [] 10 false false false false [22] [11] [] true false false,  -- 136 blobUpload.nextURL blobUpload.Prepare:121 @Server.PushHandler$1
+  mk 106 29 .read [] 17 true false false false [] [11, 22] [] true false false,  -- 137 blobUpload.nextURL blobUpload.Run:149 @go:uploadBlob:upload.Run
+  mk 107 29 .read [] 15 false false false false [] [11, 21, 22] [] true false false,  -- 138 blobUpload.nextURL blobUpload.uploadPart:251 @blobUpload.Run$1
+  mk 108 30 .write [] 10 false false false true [] [11] [] true false false,  -- 139 blobUpload.references blobUpload.acquire:307 @Server.PushHandler$1
+  mk 109 30 .write [] 10 false false false true [] [11] [] true false false,  -- 140 blobUpload.references blobUpload.release:311 @Server.PushHandler$1
+  mk 56 31 .write [] 16 false false false true [] [11] [] true false false,  -- 141 global.blobDownloadManager blobDownload.run:216 @go:downloadBlob:download.Run
+  mk 50 31 .write [] 8 false false false true [] [11] [] true false false,  -- 142 global.blobDownloadManager downloadBlob:498 @Server.CreateHandler$1
+  mk 50 31 .write [] 9 false false false true [] [11] [] true false false,  -- 143 global.blobDownloadManager downloadBlob:498 @Server.PullHandler$1
+  mk 86 32 .write [] 17 false false false true [] [11] [] true false false,  -- 144 global.blobUploadManager blobUpload.Run:128 @go:uploadBlob:upload.Run
+  mk 80 32 .write [] 10 false false false true [] [11] [] true false false,  -- 145 global.blobUploadManager uploadBlob:390 @Server.PushHandler$1
+  mk 110 33 .mapRead [] 11 false false false false [] [11] [] true false false,  -- 146 global.intermediateBlobs Server.CreateBlobHandler:1038 @api
+  mk 111 33 .mapDelete [] 11 false false false false [] [11] [] true false false,  -- 147 global.intermediateBlobs Server.CreateBlobHandler:1047 @api
+  mk 112 34 .write [] 0 true true false false [] [13] [] true false false,  -- 148 runnerRef.Options Scheduler.load:457 @Scheduler.Run$1
+  mk 113 34 .write [⟨0, false⟩, ⟨1, true⟩] 1 true false false false [] [14] [1] true false false,  -- 149 runnerRef.Options runnerRef.unload:591 @Scheduler.Run$2
+  mk 114 34 .read [⟨1, true⟩] 0 true false false false [] [13] [] false false false,  -- 150 runnerRef.Options runnerRef.needsReload:605 @Scheduler.Run$1
+  mk 115 34 .read [⟨1, true⟩] 0 true false false false [] [13] [] true false true,  -- 151 runnerRef.Options runnerRef.needsReload:610 @Scheduler.Run$1
+  mk 116 35 .read [⟨0, false⟩] 11 false false false false [] [11] [] true true false,  -- 152 runnerRef.estimatedTotal Server.PsHandler:1446 @api
+  mk 117 35 .write [] 0 true true false false [] [13] [] true false false,  -- 153 runnerRef.estimatedTotal Scheduler.load:461 @Scheduler.Run$1
+  mk 118 36 .read [⟨0, false⟩] 11 false false false false [] [11] [] true true false,  -- 154 runnerRef.estimatedVRAM Server.PsHandler:1447 @api
+  mk 119 36 .write [] 0 true true false false [] [13] [] true false false,  -- 155 runnerRef.estimatedVRAM Scheduler.load:460 @Scheduler.Run$1
+  mk 120 36 .read [] 19 false false false false [] [14] [] true false false,  -- 156 runnerRef.estimatedVRAM runnerRef.waitForVRAMRecovery$1:679 @runnerRef.waitForVRAMRecovery$1
+  mk 121 37 .read [⟨1, true⟩] 0 true false false false [] [13] [] false false false,  -- 157 runnerRef.expireTimer Scheduler.processPending:289 @Scheduler.Run$1
+  mk 122 37 .read [⟨1, true⟩] 0 true false false false [] [13] [] true false true,  -- 158 runnerRef.expireTimer Scheduler.processPending:290 @Scheduler.Run$1
+  mk 123 37 .write [⟨1, true⟩] 0 true false false false [] [13] [] true false true,  -- 159 runnerRef.expireTimer Scheduler.processPending:291 @Scheduler.Run$1
+  mk 124 37 .read [⟨1, true⟩] 1 true false false false [] [14] [] false false false,  -- 160 runnerRef.expireTimer Scheduler.processCompleted:338 @Scheduler.Run$2
+  mk 125 37 .read [⟨1, true⟩] 1 true false false false [] [14] [] true false true,  -- 161 runnerRef.expireTimer Scheduler.processCompleted:339 @Scheduler.Run$2
+  mk 126 37 .write [⟨1, true⟩] 1 true false false false [] [14] [] true false true,  -- 162 runnerRef.expireTimer Scheduler.processCompleted:340 @Scheduler.Run$2
+  mk 127 37 .write [⟨1, true⟩] 1 true false false false [] [14] [] true false false,  -- 163 runnerRef.expireTimer Scheduler.processCompleted:345 @Scheduler.Run$2
+  mk 128 37 .read [⟨1, true⟩] 0 true false false false [] [13] [] false false true,  -- 164 runnerRef.expireTimer LlmRequest.useLoadedRunner:417 @Scheduler.Run$1
+  mk 129 37 .read [⟨1, true⟩] 0 true false false false [] [13] [] true false true,  -- 165 runnerRef.expireTimer LlmRequest.useLoadedRunner:418 @Scheduler.Run$1
+  mk 130 37 .write [⟨1, true⟩] 0 true false false false [] [13] [] true false true,  -- 166 runnerRef.expireTimer LlmRequest.useLoadedRunner:419 @Scheduler.Run$1
+  mk 131 37 .read [⟨0, false⟩, ⟨1, true⟩] 1 true false false false [] [14] [1] false false false,  -- 167 runnerRef.expireTimer runnerRef.unload:582 @Scheduler.Run$2
+  mk 132 37 .read [⟨0, false⟩, ⟨1, true⟩] 1 true false false false [] [14] [1] true false true,  -- 168 runnerRef.expireTimer runnerRef.unload:583 @Scheduler.Run$2
+  mk 133 37 .write [⟨0, false⟩, ⟨1, true⟩] 1 true false false false [] [14] [1] true false true,  -- 169 runnerRef.expireTimer runnerRef.unload:584 @Scheduler.Run$2
+  mk 134 37 .read [⟨0, false⟩, ⟨1, true⟩] 11 false false false false [] [11] [] false true false,  -- 170 runnerRef.expireTimer Scheduler.expireRunner:838 @api
+  mk 135 37 .read [⟨0, false⟩, ⟨1, true⟩] 11 false false false false [] [11] [] true true true,  -- 171 runnerRef.expireTimer Scheduler.expireRunner:839 @api
+  mk 136 37 .write [⟨0, false⟩, ⟨1, true⟩] 11 false false false false [] [11] [] true true true,  -- 172 runnerRef.expireTimer Scheduler.expireRunner:840 @api
+  mk 137 37 .read [⟨1, true⟩] 4 false false false false [] [14] [] false false false,  -- 173 runnerRef.expireTimer Scheduler.processCompleted$1:349 @Scheduler.processCompleted$1
+  mk 138 37 .read [⟨1, true⟩] 4 false false false false [] [14] [] true false true,  -- 174 runnerRef.expireTimer Scheduler.processCompleted$1:350 @Scheduler.processCompleted$1
+  mk 139 37 .write [⟨1, true⟩] 4 false false false false [] [14] [] true false true,  -- 175 runnerRef.expireTimer Scheduler.processCompleted$1:351 @Scheduler.processCompleted$1
+  mk 140 38 .read [⟨0, false⟩] 11 false false false false [] [11] [] true true false,  -- 176 runnerRef.expiresAt Server.PsHandler:1450 @api
+  mk 141 38 .write [⟨1, true⟩] 1 true false false false [] [14] [] true false false,  -- 177 runnerRef.expiresAt Scheduler.processCompleted:355 @Scheduler.Run$2
+  mk 142 38 .write [⟨1, true⟩] 1 true false false false [] [14] [] true false true,  -- 178 runnerRef.expiresAt Scheduler.processCompleted:359 @Scheduler.Run$2
+  mk 143 38 .write [⟨0, false⟩, ⟨1, true⟩] 11 false false false false [] [11] [] true true false,  -- 179 runnerRef.expiresAt Scheduler.expireRunner:837 @api
+  mk 144 39 .write [] 0 true true false false [] [13] [] true false false,  -- 180 runnerRef.gpus Scheduler.load:459 @Scheduler.Run$1
+  mk 145 39 .read [⟨0, false⟩] 0 true false false false [] [13] [] true true false,  -- 181 runnerRef.gpus Scheduler.filterGPUsWithoutLoadingModels:543 @Scheduler.Run$1
+  mk 146 39 .write [⟨0, false⟩, ⟨1, true⟩] 1 true false false false [] [14] [1] true false false,  -- 182 runnerRef.gpus runnerRef.unload:592 @Scheduler.Run$2
+  mk 147 39 .read [⟨0, false⟩, ⟨1, true⟩] 1 true false false false [] [14] [] true false false,  -- 183 runnerRef.gpus runnerRef.waitForVRAMRecovery:645 @Scheduler.Run$2
+  mk 148 40 .read [] 11 false false false false [] [11] [1] true false false,  -- 184 runnerRef.llama Server.scheduleRunner:117 @api
+  mk 149 40 .read [⟨1, true⟩] 0 true false false false [] [13] [] false false false,  -- 185 runnerRef.llama LlmRequest.useLoadedRunner:411 @Scheduler.Run$1
+  mk 150 40 .write [] 0 true true false false [] [13] [] true false false,  -- 186 runnerRef.llama Scheduler.load:456 @Scheduler.Run$1
+  mk 151 40 .read [⟨0, false⟩, ⟨1, true⟩] 0 true false false false [] [13] [] false true false,  -- 187 runnerRef.llama Scheduler.updateFreeSpace:503 @Scheduler.Run$1
+  mk 152 40 .read [⟨0, false⟩, ⟨1, true⟩] 0 true false false false [] [13] [] true true true,  -- 188 runnerRef.llama Scheduler.updateFreeSpace:505 @Scheduler.Run$1
+  mk 153 40 .read [⟨0, false⟩, ⟨1, true⟩] 1 true false false false [] [14] [1] false false false,  -- 189 runnerRef.llama runnerRef.unload:586 @Scheduler.Run$2
+  mk 154 40 .read [⟨0, false⟩, ⟨1, true⟩] 1 true false false false [] [14] [1] true false true,  -- 190 runnerRef.llama runnerRef.unload:587 @Scheduler.Run$2
+  mk 155 40 .write [⟨0, false⟩, ⟨1, true⟩] 1 true false false false [] [14] [1] true false false,  -- 191 runnerRef.llama runnerRef.unload:590 @Scheduler.Run$2
+  mk 156 40 .read [⟨1, true⟩] 0 true false false false [] [13] [] true false true,  -- 192 runnerRef.llama runnerRef.needsReload:625 @Scheduler.Run$1
+  mk 157 40 .read [⟨0, false⟩] 7 true false false false [] [10] [] false true false,  -- 193 runnerRef.llama Scheduler.unloadAllRunners:824 @Serve$2
+  mk 158 40 .read [⟨0, false⟩] 7 true false false false [] [10] [] true true false,  -- 194 runnerRef.llama Scheduler.unloadAllRunners:826 @Serve$2
+  mk 159 41 .write [] 0 true true false false [] [13] [] true false false,  -- 195 runnerRef.loading Scheduler.load:462 @Scheduler.Run$1
+  mk 160 41 .read [⟨0, false⟩] 0 true false false false [] [13] [] true true false,  -- 196 runnerRef.loading Scheduler.filterGPUsWithoutLoadingModels:542 @Scheduler.Run$1
+  mk 161 41 .read [⟨1, true⟩] 0 true false false false [] [13] [] true false false,  -- 197 runnerRef.loading runnerRef.needsReload:601 @Scheduler.Run$1
+  mk 162 41 .write [⟨1, true⟩] 2 false false false false [] [13] [] true false false,  -- 198 runnerRef.loading Scheduler.load$1:484 @Scheduler.load$1
+  mk 163 42 .read [⟨0, false⟩] 11 false false false false [] [11] [] true true false,  -- 199 runnerRef.model Server.PsHandler:1434 @api
+  mk 164 42 .write [] 0 true true false false [] [13] [] true false false,  -- 200 runnerRef.model Scheduler.load:454 @Scheduler.Run$1
+  mk 165 42 .write [⟨0, false⟩, ⟨1, true⟩] 1 true false false false [] [14] [1] true false false,  -- 201 runnerRef.model runnerRef.unload:589 @Scheduler.Run$2
+  mk 166 42 .read [⟨1, true⟩] 0 true false false false [] [13] [] true false true,  -- 202 runnerRef.model runnerRef.needsReload:622 @Scheduler.Run$1
+  mk 167 43 .read [⟨1, true⟩] 0 true false false false [] [13] [] true false false,  -- 203 runnerRef.modelPath Scheduler.processPending:288 @Scheduler.Run$1
+  mk 168 43 .read [] 0 true false false false [] [13] [] true false false,  -- 204 runnerRef.modelPath Scheduler.processPending:301 @Scheduler.Run$1
+  mk 169 43 .read [⟨1, true⟩] 1 true false false false [] [14] [] true false false,  -- 205 runnerRef.modelPath Scheduler.processCompleted:337 @Scheduler.Run$2
+  mk 170 43 .read [⟨1, true⟩] 1 true false false false [] [14] [] true false true,  -- 206 runnerRef.modelPath Scheduler.processCompleted:357 @Scheduler.Run$2
+  mk 171 43 .read [] 1 true false false false [] [14] [] true false false,  -- 207 runnerRef.modelPath Scheduler.processCompleted:365 @Scheduler.Run$2
+  mk 172 43 .read [⟨0, false⟩, ⟨1, true⟩] 1 true false false false [] [14] [] true false false,  -- 208 runnerRef.modelPath Scheduler.processCompleted:371 @Scheduler.Run$2
+  mk 173 43 .write [] 0 true true false false [] [13] [] true false false,  -- 209 runnerRef.modelPath Scheduler.load:455 @Scheduler.Run$1
+  mk 145 43 .read [⟨0, false⟩] 0 true false false false [] [13] [] true true false,  -- 210 runnerRef.modelPath Scheduler.filterGPUsWithoutLoadingModels:543 @Scheduler.Run$1
+  mk 174 43 .read [] 0 true false false false [] [13] [] true false false,  -- 211 runnerRef.modelPath ByDurationAndName.Less:701 @Scheduler.Run$1
+  mk 175 43 .read [] 4 false false false false [] [14] [] true false false,  -- 212 runnerRef.modelPath Scheduler.processCompleted$1:346 @Scheduler.processCompleted$1
+  mk 176 43 .read [⟨1, true⟩] 2 false false false false [] [13] [] true false false,  -- 213 runnerRef.modelPath Scheduler.load$1:479 @Scheduler.load$1
+  mk 177 43 .read [] 19 false false false false [] [14] [] true false false,  -- 214 runnerRef.modelPath runnerRef.waitForVRAMRecovery$1:667 @runnerRef.waitForVRAMRecovery$1
+  mk 178 44 .write [] 0 true true false false [] [13] [] true false false,  -- 215 runnerRef.numParallel Scheduler.load:465 @Scheduler.Run$1
+  mk 179 44 .read [⟨1, true⟩] 0 true false false false [] [13] [] true false true,  -- 216 runnerRef.numParallel runnerRef.needsReload:618 @Scheduler.Run$1
+  mk 167 45 .read [⟨1, true⟩] 0 true false false false [] [13] [] true false false,  -- 217 runnerRef.refCount Scheduler.processPending:288 @Scheduler.Run$1
+  mk 180 45 .write [⟨1, true⟩] 1 true false false false [] [14] [] true false false,  -- 218 runnerRef.refCount Scheduler.processCompleted:334 @Scheduler.Run$2
+  mk 181 45 .read [⟨1, true⟩] 1 true false false false [] [14] [] true false false,  -- 219 runnerRef.refCount Scheduler.processCompleted:335 @Scheduler.Run$2
+  mk 182 45 .read [⟨0, false⟩, ⟨1, true⟩] 1 true false false false [] [14] [] true false false,  -- 220 runnerRef.refCount Scheduler.processCompleted:370 @Scheduler.Run$2
+  mk 183 45 .write [⟨1, true⟩] 0 true false false false [] [13] [] true false true,  -- 221 runnerRef.refCount LlmRequest.useLoadedRunner:416 @Scheduler.Run$1
+  mk 184 45 .write [] 0 true true false false [] [13] [] true false false,  -- 222 runnerRef.refCount Scheduler.load:463 @Scheduler.Run$1
+  mk 185 45 .read [⟨1, true⟩] 0 true false false false [] [13] [] true false false,  -- 223 runnerRef.refCount Scheduler.findRunnerToUnload:808 @Scheduler.Run$1
+  mk 186 45 .read [⟨0, false⟩, ⟨1, true⟩] 11 false false false false [] [11] [] true true false,  -- 224 runnerRef.refCount Scheduler.expireRunner:843 @api
+  mk 187 45 .write [⟨1, true⟩] 2 false false false false [] [13] [] true false false,  -- 225 runnerRef.refCount Scheduler.load$1:477 @Scheduler.load$1
+  mk 188 46 .read [⟨0, false⟩] 11 false false false false [] [11] [] true true false,  -- 226 runnerRef.sessionDuration Server.PsHandler:1457 @api
+  mk 189 46 .write [⟨1, true⟩] 0 true false false false [] [13] [] true false false,  -- 227 runnerRef.sessionDuration Scheduler.processPending:293 @Scheduler.Run$1
+  mk 190 46 .read [⟨1, true⟩] 1 true false false false [] [14] [] true false false,  -- 228 runnerRef.sessionDuration Scheduler.processCompleted:336 @Scheduler.Run$2
+  mk 170 46 .read [⟨1, true⟩] 1 true false false false [] [14] [] true false true,  -- 229 runnerRef.sessionDuration Scheduler.processCompleted:357 @Scheduler.Run$2
+  mk 191 46 .write [⟨1, true⟩] 0 true false false false [] [13] [] true false true,  -- 230 runnerRef.sessionDuration LlmRequest.useLoadedRunner:422 @Scheduler.Run$1
+  mk 192 46 .write [] 0 true true false false [] [13] [] true false false,  -- 231 runnerRef.sessionDuration Scheduler.load:458 @Scheduler.Run$1
+  mk 193 46 .read [] 0 true false false false [] [13] [] true false false,  -- 232 runnerRef.sessionDuration ByDurationAndName.Less:695 @Scheduler.Run$1
+  mk 194 46 .write [⟨0, false⟩, ⟨1, true⟩] 11 false false false false [] [11] [] true true false  -- 233 runnerRef.sessionDuration Scheduler.expireRunner:842 @api
 ]
 
 /-- (class, site, site) of the pairs the translator's own implementation of the rule rejects -/
-def expectedViolations : List (Nat × Nat × Nat) := [(12, 49, 50), (12, 49, 50), (17, 69, 72), (17, 69, 72), (17, 69, 72), (17, 69, 72), (18, 73, 75), (18, 73, 75), (18, 73, 75), (18, 73, 75), (21, 80, 81), (25, 95, 96), (26, 97, 99), (26, 98, 99), (27, 100, 99), (27, 100, 102), (27, 101, 99), (27, 101, 102), (38, 142, 143), (38, 142, 144), (41, 162, 164), (46, 190, 191), (46, 190, 193), (46, 195, 196)]
+def expectedViolations : List (Nat × Nat × Nat) := [(17, 68, 71), (17, 68, 71), (17, 68, 71), (17, 68, 71), (18, 72, 74), (18, 72, 74), (18, 72, 74), (18, 72, 74), (25, 93, 94), (26, 95, 97), (26, 96, 97), (27, 98, 97), (27, 98, 100), (27, 99, 97), (27, 99, 100), (38, 140, 141), (38, 140, 142), (41, 160, 162), (46, 188, 189), (46, 188, 191), (46, 193, 194)]
 
 /-- classes a teardown function (runnerRef.unload) sets to nil -/
 def clearedClassIds : List Nat := [34, 37, 40, 42]
@@ -259,8 +260,8 @@ def registryLockRef : LockRef := ⟨0, false⟩
 def objectLockRef : LockRef := ⟨1, true⟩
 /-- (class, site) of the stale reads the translator's own implementation of the rule found -/
 def expectedStale : List (Nat × Nat) := []
-def badClassIds : List Nat := [12, 17, 18, 21, 25, 26, 27, 38, 41, 46]
-def goodClassIds : List Nat := [0, 1, 2, 3, 4, 5, 6, 7, 8, 9, 10, 11, 13, 14, 15, 16, 19, 20, 22, 23, 24, 28, 29, 30, 31, 32, 33, 34, 35, 36, 37, 39, 40, 42, 43, 44, 45]
-def badClassNames : List String := ["blobDownload.CancelFunc", "blobDownload.Total", "blobDownload.done", "blobUpload.CancelFunc", "blobUpload.Total", "blobUpload.done", "blobUpload.err", "runnerRef.expiresAt", "runnerRef.loading", "runnerRef.sessionDuration"]
+def badClassIds : List Nat := [17, 18, 25, 26, 27, 38, 41, 46]
+def goodClassIds : List Nat := [0, 1, 2, 3, 4, 5, 6, 7, 8, 9, 10, 11, 12, 13, 14, 15, 16, 19, 20, 21, 22, 23, 24, 28, 29, 30, 31, 32, 33, 34, 35, 36, 37, 39, 40, 42, 43, 44, 45]
+def badClassNames : List String := ["blobDownload.Total", "blobDownload.done", "blobUpload.Total", "blobUpload.done", "blobUpload.err", "runnerRef.expiresAt", "runnerRef.loading", "runnerRef.sessionDuration"]
 
 end OllamaVerif.Generated.C15
